@@ -18,7 +18,7 @@ SWAP = {'==': '==', '!=': '!=', '<': '>', '<=': '>=', '>': '<', '>=': '<='}
 
 
 def floors(tier):
-    return {'set:unit_pairs': 607, 'conversions': 20000, 'comparisons': 200000, 'cmp_determined': 50000, 'cmp_same_magnitude': 20000, 'reused_operand_comparisons': 20000}
+    return {'set:unit_pairs': 607, 'conversions': 20000, 'comparisons': 200000, 'cmp_determined': 50000, 'cmp_same_magnitude': 20000, 'reused_operand_comparisons': 20000, 'shared_state_conversions': 2000}
 
 
 def n_cases(tier):
@@ -250,6 +250,50 @@ def one_pair(ctx, idx, kind, u1, u2, tier):
             if SI.SIGN.get(kb) != '>0':
                 check_comparisons(ctx, kind, kb, u1, u2, 0.0, 0.0, case)
     reused_operand(ctx, kind, u1, u2, rng, case)
+    for _ in range(3):
+        shared_state(ctx, kind, u1, u2, rng, case)
+
+
+def shared_state(ctx, kind, u1, u2, rng, case):
+    """conversions must not share state between calls or between objects:
+    (1) the object returned by a copy conversion is converted in place, then the original is asked for the same unit again;
+    (2) another object of the kind converts another unit couple in between two identical conversions of the first one"""
+    K = lib(kind)
+    us = SI.units(kind)
+    x = float(f'{10 ** rng.uniform(-2, 3):.4g}')
+    try:
+        a = K(x, u1)
+        r1 = a.to(u2)
+        u3 = us[(us.index(u2) + 1) % len(us)]
+        r1.to(u3, inplace=True)
+        r2 = a.to(u2)
+        exp = SI.convert(kind, x, u1, u2)
+        ctx.count('shared_state_conversions')
+        if r2.unit != u2 or SI.ulps_apart(float(r2.value), exp) > 8 or a.value != x or a.unit != u1:
+            ctx.violation('C05:copy-conversion-aliased', {'kind': kind, 'value': x, 'from': u1, 'to': u2, 'returned_copy_then_converted_in_place_to': u3,
+                                                         'second_copy': [r2.value, r2.unit], 'reference': exp, 'original_after': [a.value, a.unit]}, case)
+            return
+        if u1 != u2 and not (a == K(x, u1)) :
+            ctx.violation('C05:copy-conversion-aliased', {'kind': kind, 'value': x, 'unit': u1, 'what': 'the original no longer equals a fresh quantity of the same value and unit'}, case)
+            return
+        # (2) interleaving with another object
+        y = float(f'{10 ** rng.uniform(-2, 3):.4g}')
+        u4, u5 = us[(us.index(u1) + 2) % len(us)], us[(us.index(u2) + 3) % len(us)]
+        first = a.to(u2).value
+        other = K(y, u4).to(u5)
+        again = a.to(u2).value
+        ctx.count('shared_state_conversions')
+        if SI.ulps_apart(float(other.value), SI.convert(kind, y, u4, u5)) > 8 or again != first or SI.ulps_apart(float(again), exp) > 8:
+            ctx.violation('C05:conversion-depends-on-other-objects', {'kind': kind, 'object': [x, u1], 'to': u2, 'first': first, 'after_another_object_converted': again,
+                                                                      'other_object': [y, u4, u5, other.value], 'reference': exp}, case)
+            return
+        # comparisons repeated on the same two objects
+        b = K(SI.convert(kind, x * 1.5, u1, u2), u2)
+        outs = [(a < b, b > a, a == b) for _ in range(3)]
+        if len(set(outs)) != 1:
+            ctx.violation('C05:comparison-not-repeatable', {'kind': kind, 'a': [x, u1], 'b': [b.value, b.unit], 'outcomes': outs}, case)
+    except ValueError:
+        return
 
 
 def reused_operand(ctx, kind, u1, u2, rng, case):
